@@ -1,6 +1,7 @@
 package main
 
 import (
+	"fmt"
 	"math"
 	"net"
 	"net/netip"
@@ -795,6 +796,23 @@ func generate(r *runner) {
 		r.all("pairs-fold-alphabet", "", str2In{A: hstr(a), B: hstr(b)}, mode)
 	})
 
+	// Long haystacks (past any short-string cut-over): a needle of <= 2 symbols
+	// against a haystack of <= 3 symbols of the fold alphabet behind, in front
+	// of, or between paddings of 60..70 bytes.
+	lsh := sh()
+	for _, padLen := range []int{60, 63, 64, 65, 70} {
+		pad := strings.Repeat("0123456789 ", 7)[:padLen]
+		pairs(foldAlphabet, 4, lsh, func(a, b string) {
+			if b == "" || len(b) > 8 {
+				return
+			}
+
+			for _, hay := range []string{pad + a, a + pad, pad + a + pad} {
+				r.all("pairs-long-haystack", "", str2In{A: hstr(hay), B: hstr(b)}, countKeyed)
+			}
+		})
+	}
+
 	// (e) Byte slices, subnets, addresses, prefixes, net.Addr values.
 	netValues(r, sh)
 
@@ -848,6 +866,20 @@ func pairs(a *alpha, total int, sh *enum.Sharder, f func(x, y string)) {
 func storageOps(r *runner, sh *enum.Sharder) {
 	var texts []string
 	hostsTexts(2, []string{"\n"}, func(text string) { texts = append(texts, text) })
+
+	// Many names under one address and many addresses under one name (past any
+	// small-set shortcut), on one line and spread over many, with a repeat.
+	for _, n := range []int{8, 9, 15, 16, 17, 18, 32, 33, 64, 65} {
+		var one, many, byName strings.Builder
+		one.WriteString("1.2.3.4")
+		for i := 0; i < n; i++ {
+			fmt.Fprintf(&one, " h%02d.example", i)
+			fmt.Fprintf(&many, "1.2.3.4 h%02d.example\n", i)
+			fmt.Fprintf(&byName, "10.0.0.%d shared.example\n", i+1)
+		}
+
+		texts = append(texts, one.String()+"\n1.2.3.4 H00.example\n", many.String()+"1.2.3.4 h00.example\n", byName.String()+"10.0.0.1 SHARED.example\n")
+	}
 
 	addrs := []haddr{
 		addrOf(netip.Addr{}), addrOf(netip.MustParseAddr("1.2.3.4")), addrOf(netip.MustParseAddr("::1")),
